@@ -4,5 +4,5 @@
 import sys
 sys.path[:0] = ['/repo' + "/pulser-core", '/repo' + "/pulser-simulation", "/verif"]
 from symx.replay import replay
-sys.exit(replay(check='checks.c06', kernel='program', shape={'program': 'xy_slm_two', 'ext': [0, 1, 5]},
+sys.exit(replay(check='checks.c06', kernel='program', shape={'program': 'xy_slm_two', 'ext': [0, 3]},
                 assignment={'a0': '1/2', 'd0': '0/1', 'a1': '1/2', 'd1': '0/1', 'a2': '1/2', 'd2': '0/1'}, label='nested:atom_phase_with_other_global_channels'))
